@@ -156,4 +156,35 @@ VARIANTS = [
             "            if packet_id > new_id:\n                continue\n            new_id -= 1\n",
      "new": "        new_id = effective_id\n        for packet_id in self.injections:\n            if packet_id > effective_id:\n"
             "                break\n            new_id -= 1\n"},
+    # ------------------------------------------------------------------ R4 resend cadence (strengthening round)
+    {"name": "R4 cadence compares the .seconds component of the elapsed time", "file": BC, "expect": "C05.R4",
+     "old": "            if dt.datetime.now() - resend_info.last_resent < dt.timedelta(seconds=self.resend_every):\n",
+     "new": "            elapsed = dt.datetime.now() - resend_info.last_resent\n"
+            "            if elapsed.seconds < self.resend_every:\n"},
+    {"name": "R4 no hold-back between retransmissions", "file": BC, "expect": "C05.R4",
+     "old": "            if dt.datetime.now() - resend_info.last_resent < dt.timedelta(seconds=self.resend_every):\n"
+            "                continue\n", "new": ""},
+    {"name": "R4 last_resent never restarted", "file": BC, "expect": "C05.R4",
+     "old": "            resend_info.last_resent = dt.datetime.now()\n", "new": ""},
+    {"name": "P R4 cadence through total_seconds()", "file": BC, "expect": "silent",
+     "old": "            if dt.datetime.now() - resend_info.last_resent < dt.timedelta(seconds=self.resend_every):\n",
+     "new": "            elapsed = dt.datetime.now() - resend_info.last_resent\n"
+            "            if elapsed.total_seconds() < self.resend_every:\n"},
+    # ------------------------------------------------------------------ helper extraction (strengthening round)
+    {"name": "P R1/R2 ack translation extracted into a classmethod helper", "expect": "silent", "edits": [
+        {"file": PC, "old": "    def prepare_message(self, message: Message):\n",
+         "new": "    @classmethod\n    def _sanitise(cls, tracker, raw):\n"
+                "        return tuple(tracker.get_original_id(a) for a in raw if not tracker.was_injected(a))\n\n"
+                "    def prepare_message(self, message: Message):\n"},
+        {"file": PC, "old": "        effective_acks = tuple(\n            reverse_injections.get_original_id(x) for x in message.acks\n"
+                            "            if not reverse_injections.was_injected(x)\n        )\n",
+         "new": "        effective_acks = self._sanitise(reverse_injections, message.acks)\n"}]},
+    {"name": "R2 extracted helper forgets the was_injected filter", "expect": "C05.R2", "edits": [
+        {"file": PC, "old": "    def prepare_message(self, message: Message):\n",
+         "new": "    @classmethod\n    def _sanitise(cls, tracker, raw):\n"
+                "        return tuple(tracker.get_original_id(a) for a in raw)\n\n"
+                "    def prepare_message(self, message: Message):\n"},
+        {"file": PC, "old": "        effective_acks = tuple(\n            reverse_injections.get_original_id(x) for x in message.acks\n"
+                            "            if not reverse_injections.was_injected(x)\n        )\n",
+         "new": "        effective_acks = self._sanitise(reverse_injections, message.acks)\n"}]},
 ]
